@@ -65,6 +65,26 @@ def _persist_case(ti, pre, mutate, cache):
             caller["c"]["z"] = 5
         if job.id != jid:
             problems.append(("id", job.id, jid))
+        # the lazy handle reports exactly sp, through every accessor, BEFORE init and without any side effect
+        try:
+            if not refs.same_json(dict(job.cached_statepoint), want):
+                problems.append(("cached_statepoint before init", dict(job.cached_statepoint)))
+            if not refs.same_json(job.statepoint(), want) or not refs.same_json(job.sp(), want):
+                problems.append(("statepoint before init", job.statepoint()))
+            repr(job)
+        except Exception as e:  # noqa
+            problems.append(("accessor raised before init", type(e).__name__, str(e)[:60]))
+        if _mut_steps(fs) or fs.snapshot("/p") != before:
+            problems.append(("state point access wrote to disk",))
+        if not pre:
+            # an uninitialised job is unknown to the project: by id, by membership, by length
+            try:
+                pr.open_job(id=jid)
+                problems.append(("open_job(id) of a never initialised job did not raise KeyError",))
+            except KeyError:
+                pass
+            if job in pr or len(pr) != 1:
+                problems.append(("uninitialised job counted as member",))
         corrupt = pre == 4
         try:
             job.init()
